@@ -2,7 +2,7 @@
     Property theorems only; every proof is [exact <lemma>] or a closed computation
     on the tables regenerated from /repo. *)
 From Coq Require Import List Arith Bool String Ascii ZArith NArith Sorted.
-From Naunet Require Import Lib.ListX Lib.PyStr Model.Species Proofs.SpeciesProofs.
+From Naunet Require Import Lib.ListX Lib.PyStr Model.Species Model.SpeciesSpec Proofs.SpeciesProofs Proofs.SpeciesRoundtrip.
 From NaunetGen Require Import Tables.
 Import ListNotations.
 Open Scope string_scope.
@@ -69,6 +69,41 @@ Theorem charge_minus : forall T Y pre x n sp,
 Proof. exact charge_minus_lemma. Qed.
 Print Assumptions charge_minus.
 
+(** the round trip.  A name is rendered from items (symbol text, digit run); when
+    the rendering is [unambiguous] -- every occurrence of a configured symbol in it
+    is an intended token or overlaps an intended token of a symbol tried earlier --
+    the masked longest-first scan finds exactly the intended tokens ... *)
+Theorem scan_exact : forall comps pn toks,
+  Forall (fun c => no_blank (txt c)) comps ->
+  intended comps pn toks -> unambiguous comps pn toks ->
+  forall m, In m (scan comps pn []) <-> exists a, In a toks /\ m = mk a.
+Proof. exact scan_exact_lemma. Qed.
+Print Assumptions scan_exact.
+
+(* ... and the whole parser is the fold of [item_step] over the items: same
+   error or same element counts, surface group, grain group and (without
+   renaming) name, for every table configuration and every item list *)
+Theorem name_roundtrip : forall T Y name its,
+  wf_tables T Y ->
+  parsename_of (chars name) = render its ->
+  Forall (fun it : item => In (fst it) (map txt (components T Y)) /\ fst it <> []) its ->
+  unambiguous (components T Y) (render its) (positions 0 its) ->
+  match items_loop T Y (([], []) :: its) st0 with
+  | inl e => parse_species T Y name = inl e
+  | inr st => exists sp, parse_species T Y name = inr sp /\
+                sp_counts sp = p_counts st /\ sp_surface sp = p_surface st /\
+                sp_grain sp = p_grain st /\ sp_symbols sp = Y /\
+                (t_replacement T = [] -> sp_name sp = name)
+  end.
+Proof. exact name_roundtrip_lemma. Qed.
+Print Assumptions name_roundtrip.
+
+(* the premise is decidable; the harness evaluates it on every generated name *)
+Theorem unambiguous_decidable : forall comps pn toks,
+  unambiguousb comps pn toks = true -> unambiguous comps pn toks.
+Proof. exact unambiguousb_sound. Qed.
+Print Assumptions unambiguous_decidable.
+
 (** the tables of the current /repo (regenerated on every run) *)
 Definition T0 := {| t_elements := default_elements; t_pseudo := default_pseudoelements; t_replacement := [] |}.
 Definition Y0 := {| y_grain := "GRAIN"; y_surface := "#" |}.
@@ -88,6 +123,53 @@ Theorem Si_not_S_i_He_not_H_e :
   (match parse_species T0 Y0 "Si++++" with inr s => charge s | _ => 0%Z end) = 4%Z.
 Proof. vm_compute. repeat split; reflexivity. Qed.
 Print Assumptions Si_not_S_i_He_not_H_e.
+
+(* non-vacuity of the round trip on the live tables: ice ethanol in group 1 and
+   doubly ionised silicon monoxide meet every premise, so the theorem (not a
+   computation of the parser) gives their composition *)
+Definition its_ethanol : list item :=
+  [(chars "#", chars "1"); (chars "C", chars "2"); (chars "H", chars "5"); (chars "O", []); (chars "H", [])].
+Definition its_sio : list item := [(chars "Si", []); (chars "O", [])].
+Definition items_ok (its : list item) : bool :=
+  forallb (fun it : item => memb (list_eqb Ascii.eqb) (fst it) (map txt (components T0 Y0))
+                            && negb (Nat.eqb (List.length (fst it)) 0)) its
+  && unambiguousb (components T0 Y0) (render its) (positions 0 its).
+
+Lemma items_ok_sound its : items_ok its = true ->
+  Forall (fun it : item => In (fst it) (map txt (components T0 Y0)) /\ fst it <> []) its /\
+  unambiguous (components T0 Y0) (render its) (positions 0 its).
+Proof.
+  unfold items_ok. rewrite andb_true_iff. intros [H1 H2]. split.
+  - apply Forall_forall. intros it Hit. rewrite forallb_forall in H1. specialize (H1 it Hit).
+    apply andb_true_iff in H1. destruct H1 as [Ha Hb]. split.
+    + apply (memb_In_gen (list_eqb Ascii.eqb) list_eqb_ascii_eq). exact Ha.
+    + intro E. rewrite E in Hb. discriminate.
+  - apply unambiguousb_sound. exact H2.
+Qed.
+
+Theorem roundtrip_instances :
+  (exists sp, parse_species T0 Y0 "#1C2H5OH" = inr sp /\
+     sp_counts sp = [("C", 2%N); ("H", 6%N); ("O", 1%N)] /\ sp_surface sp = Some 1%N /\ sp_grain sp = None) /\
+  (exists sp, parse_species T0 Y0 "SiO++" = inr sp /\
+     sp_counts sp = [("Si", 1%N); ("O", 1%N)] /\ sp_surface sp = None /\ sp_name sp = "SiO++").
+Proof.
+  split.
+  - assert (items_ok its_ethanol = true) as H by (vm_compute; reflexivity).
+    destruct (items_ok_sound _ H) as [H1 H2].
+    pose proof (name_roundtrip T0 Y0 "#1C2H5OH" its_ethanol default_tables_wf eq_refl H1 H2) as R.
+    assert (items_loop T0 Y0 (([], []) :: its_ethanol) st0 =
+            inr {| p_counts := [("C", 2%N); ("H", 6%N); ("O", 1%N)]; p_surface := Some 1%N; p_grain := None |}) as E
+      by (vm_compute; reflexivity).
+    rewrite E in R. destruct R as (sp & Hp & Hc & Hs & Hg & _). exists sp. repeat split; auto.
+  - assert (items_ok its_sio = true) as H by (vm_compute; reflexivity).
+    destruct (items_ok_sound _ H) as [H1 H2].
+    pose proof (name_roundtrip T0 Y0 "SiO++" its_sio default_tables_wf eq_refl H1 H2) as R.
+    assert (items_loop T0 Y0 (([], []) :: its_sio) st0 =
+            inr {| p_counts := [("Si", 1%N); ("O", 1%N)]; p_surface := None; p_grain := None |}) as E
+      by (vm_compute; reflexivity).
+    rewrite E in R. destruct R as (sp & Hp & Hc & Hs & Hg & _ & Hn). exists sp. repeat split; auto.
+Qed.
+Print Assumptions roundtrip_instances.
 
 (* known finding: the excited-state label is recorded as an element *)
 Theorem star_label_refuted : counts_of "H2*" = Some [("H", 2%N); ("*", 1%N)].
